@@ -96,9 +96,9 @@ fn trial(sess: &mut Session, vis: u64, baseline: &Value) -> (&'static str, Strin
             let lim = libc::rlimit { rlim_cur: 4 << 30, rlim_max: 4 << 30 };
             libc::setrlimit(libc::RLIMIT_AS, &lim);
             // ... and a runaway loop from stalling the enumeration: a trial takes milliseconds
-            // of CPU; 30 s of CPU time (not wall time, so machine load does not matter) means
+            // of CPU; 10 s of CPU time (not wall time, so machine load does not matter) means
             // the damaged bytes sent the reader spinning - neither an answer nor an error
-            let cpu = libc::rlimit { rlim_cur: 30, rlim_max: 40 };
+            let cpu = libc::rlimit { rlim_cur: 10, rlim_max: 15 };
             libc::setrlimit(libc::RLIMIT_CPU, &cpu);
             let (o, d) = trial_inner(sess, vis, baseline);
             let msg = format!("{o}\n{d}");
@@ -130,7 +130,7 @@ fn trial(sess: &mut Session, vis: u64, baseline: &Value) -> (&'static str, Strin
             _ if libc::WIFSIGNALED(status)
                 && (libc::WTERMSIG(status) == libc::SIGXCPU || libc::WTERMSIG(status) == libc::SIGKILL) =>
             {
-                ("hang", "the trial exceeded 30 s of CPU time".to_string())
+                ("hang", "the trial exceeded 10 s of CPU time".to_string())
             }
             _ => ("abort", format!("status {status}")),
         }
@@ -252,7 +252,13 @@ pub fn run(args: &[String]) -> i32 {
         // group -> (trials, same, err, panic, diff, diffs)
         let mut groups: BTreeMap<(String, String, String), (u64, u64, u64, u64, u64, Vec<Value>)> = BTreeMap::new();
         let mut x = seed.wrapping_mul(0x9E37_79B9_7F4A_7C15) ^ (ln as u64);
+        // spinning readers cost 10 s of CPU each: a handful is a verdict already, the rest of
+        // the history's enumeration is skipped then
+        let mut hangs = 0u32;
         for (rel, bytes) in &snap {
+            if hangs >= 6 {
+                break;
+            }
             let n = bytes.len();
             // phase offset so that different seeds cover different positions
             x ^= x << 13;
@@ -271,7 +277,13 @@ pub fn run(args: &[String]) -> i32 {
                     let mut b = bytes.clone();
                     b[off] ^= mask;
                     std::fs::write(dir.join(rel), &b).expect("write damaged file");
+                    if hangs >= 6 {
+                        break;
+                    }
                     let (outc, detail) = trial(&mut sess, vis, &baseline);
+                    if outc == "hang" {
+                        hangs += 1;
+                    }
                     restore(&dir, &snap);
                     trials += 1;
                     let g = groups
@@ -300,7 +312,13 @@ pub fn run(args: &[String]) -> i32 {
             }
             for l in lens {
                 std::fs::write(dir.join(rel), &bytes[..l]).expect("write truncated file");
+                if hangs >= 6 {
+                    break;
+                }
                 let (outc, detail) = trial(&mut sess, vis, &baseline);
+                if outc == "hang" {
+                    hangs += 1;
+                }
                 restore(&dir, &snap);
                 trials += 1;
                 let g = groups
